@@ -44,6 +44,9 @@ type XXX_lazyUnmarshalInfo struct {
 	Protobuf []byte
 	// The flags present when Unmarshal was originally called for this particular message
 	unmarshalFlags piface.UnmarshalInputFlags
+	// One more than the recursion depth that was still available below this
+	// message when Unmarshal was originally called for it (0: not recorded).
+	unmarshalDepth int
 }
 
 // The Buffer and SetBuffer methods let v2/internal/impl interact with
@@ -67,6 +70,19 @@ func (lazy *XXX_lazyUnmarshalInfo) SetBuffer(b []byte) {
 // The flags should reflect how Unmarshal was called.
 func (lazy *XXX_lazyUnmarshalInfo) SetUnmarshalFlags(f piface.UnmarshalInputFlags) {
 	lazy.unmarshalFlags = f
+}
+
+// SetUnmarshalDepth records the recursion depth still available below this
+// message, so that fields decoded later are held to the limit they were
+// validated under.
+func (lazy *XXX_lazyUnmarshalInfo) SetUnmarshalDepth(depth int) {
+	lazy.unmarshalDepth = depth + 1
+}
+
+// UnmarshalDepth returns the depth recorded by SetUnmarshalDepth,
+// or a negative number if none was recorded.
+func (lazy *XXX_lazyUnmarshalInfo) UnmarshalDepth() int {
+	return lazy.unmarshalDepth - 1
 }
 
 // UnmarshalFlags returns the original unmarshalInputFlags.
